@@ -34,8 +34,8 @@ def _register_metrics(c):
     opmod.operand_registry.register('verif_gap', m_gap, overwrite=True)
 
 
-def _problem(c, scaling=True, with_solve=False, bounds=False):
-    lens, v = arbitrary_lens(c, 4, stop=1, finite_object=False)
+def _problem(c, scaling=True, with_solve=False, bounds=False, n=4):
+    lens, v = arbitrary_lens(c, n, stop=1, finite_object=False)
     lens.add_wavelength(0.55, is_primary=True)
     lens.set_aperture('EPD', c.real('EPD', 0.5, 6.0, positive=True))
     _register_metrics(c)
@@ -289,9 +289,16 @@ def _real_scipy(ct, tier, seed):
             for with_solve in ((False, True) if front in ('generic', 'least_squares') else (False,)):
                 c = vc.Ctx('num', rng=random.Random(seed * 1009 + trial * 17 + len(front)))
                 try:
-                    lens, v, prob, _t = _problem(c, bounds=True)
+                    lens, v, prob, _t = _problem(c, bounds=True, n=6 if with_solve else 4)
+                    with_pickup = False
                     if with_solve:
                         lens.solves.add('marginal_ray_height', 3, 0.0)
+                        if lens.surface_group.num_surfaces > 4:
+                            # round 7: a pickup that reads the gap the solve moves (target behind the solve surface, so acyclic);
+                            # it must hold on return and again after undo(), each of which calls update() once
+                            lens.pickups.add(2, 'thickness', 3, scale=0.5, offset=1.0)
+                            lens.update()
+                            with_pickup = True
                     om = c.mod('optiland.optimization.optimization')
                     cls = {'generic': om.OptimizerGeneric, 'least_squares': om.LeastSquares, 'dual_annealing': om.DualAnnealing,
                            'differential_evolution': om.DifferentialEvolution}[front]
@@ -326,9 +333,21 @@ def _real_scipy(ct, tier, seed):
                 if with_solve:
                     ya, _ = lens.paraxial.marginal_ray()
                     note('C14.runtime.solve_holds_on_return', abs(float(ya[3, 0])) < 1e-9, 'ya = %s' % float(ya[3, 0]), inputs)
+                def _pickup_gap():
+                    g2 = float(np.ravel(lens.surface_group.get_thickness(2))[0])
+                    g3 = float(np.ravel(lens.surface_group.get_thickness(3))[0])
+                    return abs(g3 - (0.5 * g2 + 1.0)) <= 1e-9 * max(1.0, abs(g3)), 'gap3 = %r, 0.5 * gap2 + 1 = %r' % (g3, 0.5 * g2 + 1.0)
+                if with_pickup:
+                    ok_, why_ = _pickup_gap()
+                    note('C14.runtime.pickup_on_the_solved_gap_holds_on_return', ok_, why_, inputs)
                 opt.undo()
                 back = [float(np.ravel(var.value)[0]) for var in prob.variables]
                 note('C14.runtime.undo_restores_the_start', bool(np.allclose(back, x_start, rtol=1e-12, atol=1e-12)), '%s vs %s' % (back, x_start), inputs)
+                if with_pickup:
+                    ok_, why_ = _pickup_gap()
+                    note('C14.runtime.pickup_on_the_solved_gap_holds_after_undo', ok_, why_, inputs)
+                    ya, _ = lens.paraxial.marginal_ray()
+                    note('C14.runtime.solve_holds_after_undo', abs(float(ya[3, 0])) < 1e-9, 'ya = %s' % float(ya[3, 0]), inputs)
     return {'contract': ct.name, 'functions': ct.functions, 'props': ct.props,
             'symbolic': {'clauses': clauses, 'paths': 0, 'errors': [], 'solver_s': 0.0, 'samples': [], 'wd_assumed': [], 'assumed': []},
             'numeric': {'accepted': cases, 'rejected': 0, 'failures': fails[:10], 'concolic_agree': 0, 'encoder_mismatches': [],
